@@ -220,7 +220,8 @@ def _chunk(args):
     bad = []
     for idx, rec in items:
         try:
-            fails = check_config(rec, idx, heavy=(idx % heavy_mod == 0))
+            last = max([m["i"] for m in rec["modes"]] + [0])
+            fails = check_config(rec, idx, heavy=(idx % heavy_mod == 0) or (rec["cls"] == "P3" and last in (3, 8, 15) and rec["rexp"] == 0))
         except Exception as exc:  # noqa: BLE001
             fails = [f"raised {type(exc).__name__}: {exc}"]
         if fails:
